@@ -25,6 +25,14 @@ def main():
     except Exception as e:
         traceback.print_exc()
         rep.add(Query("check machinery", "inconclusive", "exception: %r" % (e,), 0, "python"))
+    if os.environ.get("VERIF_AUDIT_UNINT"):
+        try:
+            import mcommon, json
+            un = mcommon.audit_uninterpreted()
+            enc = set(rep.functions_encoded)
+            json.dump({"property": a.pid, "uninterpreted_crate_callees": un, "functions_encoded": sorted(enc)}, open(os.environ["VERIF_AUDIT_UNINT"], "w"), indent=1)
+        except Exception as e:
+            log("audit failed: %r" % (e,))
     return rep.finish()
 
 
